@@ -606,6 +606,10 @@ impl RibUnitRunner {
         // them.
         waitpoint.running().await;
 
+        // Links of an earlier configuration that a reload has replaced and
+        // whose gate may not be done with us yet (see Reconfiguring below).
+        let mut retired_sources: Vec<DirectLink> = Vec::new();
+
         loop {
             match arc_self.gate.process().await {
                 Ok(status) => {
@@ -700,7 +704,21 @@ impl RibUnitRunner {
                                     sources.len(),
                                     new_sources.len(),
                                 );
-                            sources = new_sources;
+                            // The links of the previous configuration
+                            // are not dropped, i.e. unsubscribed, here. A
+                            // source that this reload terminates still has
+                            // to deliver the withdrawals of its sessions,
+                            // and may get round to that only after we have
+                            // been reconfigured; a source that keeps
+                            // running forgets the old subscription itself
+                            // when it takes over its new gate. They are
+                            // let go of once their gate no longer listens.
+                            retired_sources
+                                .retain(|link| !link.is_gate_gone());
+                            retired_sources.extend(std::mem::replace(
+                                &mut sources,
+                                new_sources,
+                            ));
                             for link in sources.iter_mut() {
                                 link.connect(arc_self.clone(), false)
                                     .await
